@@ -23,7 +23,7 @@ import (
 )
 
 const rule = "cases = (sequence of 0-5 global options among ignore/redirect trailing slash on/off and client-IP resolvers) x (sequence of 0-6 route options among the same plus annotations, repeated and contradictory) x pattern x creation path " +
-	"(Handle, Update, NewRoute+HandleRoute, NewRoute+UpdateRoute, in and out of transactions) x handler kind in which Context.ClientIP is called; plus invalid options (nil handlers/middleware, annotation keys that cannot be map keys); " +
+	"(Handle, Update, NewRoute+HandleRoute, NewRoute+UpdateRoute, in and out of transactions) x handler kind in which Context.ClientIP is called; plus invalid options (nil handlers/middleware, annotation keys that cannot be map keys), annotations explicitly set to nil, wildcard counts at and around the documented and configured limits; " +
 	"distinct by (option sequences, pattern, creation path); non-trivial when at least two options interact (same family set twice, or both trailing-slash modes, or route overriding global)"
 
 type resolver struct {
@@ -180,7 +180,7 @@ func main() {
 		check(run, c)
 		return
 	}
-	n := run.Pick(5000, 200000)
+	n := run.Pick(5000, 2000000)
 	if run.Mode() == "race" {
 		n = run.Pick(300, 5000)
 	}
@@ -248,7 +248,7 @@ type tagKey struct{}
 // concurrent: routes created at the same time, each with its own options (middleware, resolver, annotation), carry
 // exactly their own configuration afterwards.
 func concurrent(run *kit.Run) {
-	rounds := run.Pick(150, 3000)
+	rounds := run.Pick(150, 10000)
 	for round := 0; round < rounds; round++ {
 		var gopts []fox.GlobalOption
 		for i := 0; i < round%7; i++ {
